@@ -310,6 +310,11 @@ pub fn judge(case: &Case, o: &Outcome) -> Vec<(String, String)> {
                             }
                         }
                     }
+                    // RFC 9114 5.2: the identifiers an endpoint sends in GOAWAY frames MUST NOT increase
+                    let ids: Vec<u64> = frames.iter().filter(|f| f.ty == rf::GOAWAY).filter_map(|f| rf::single_varint(&f.payload)).collect();
+                    if ids.windows(2).any(|w| w[1] > w[0]) {
+                        out.push((format!("C14:{who}:goaway-identifier-increases"), format!("{sctx}: GOAWAY identifiers {ids:?}")));
+                    }
                     if *fin || !resets.is_empty() {
                         out.push((format!("C14:{who}:control-stream-closed-by-sender"), sctx.clone()));
                     }
@@ -405,7 +410,7 @@ pub fn run(args: &Args) -> i32 {
     let mut rep = Report::new("C14", args.tier, args.seed, "model_checking");
     rep.exhaustive = true;
     rep.rule = format!(
-        "programs: every client call sequence of length <= {cl} over {{send_data(empty), send_data(1 byte), send_data(two-chunk Buf), send_trailers, finish, stop_stream}} after send_request (against a fixed server program), and every server call sequence of length <= {sl} over {{send_response, the three send_data, send_trailers, finish, stop_stream, shutdown(0), shutdown(1)}} (against a fixed client program); each call awaited; x (grease on/off) x (extensions configured on/off); plus a values family: max_field_section_size and max_webtransport_sessions from {{0, 63, 64, 16383, 16384, 2^30-1, 2^30, 2^62-1}} and a server shutdown(n) for n in {{0, 15, 16, 4095, 4096, 2^28-1, 2^28}} (every varint form boundary in SETTINGS values and GOAWAY identifiers). Each program under the default transport, the uniform one-byte-per-write schedule, and (programs of length <= 3) every write-acceptance pattern with <= {bound} deviations, a deviation being one poll_ready/poll_send answer that accepts 0, 1, 2, header-boundary-1, header-boundary, header-boundary+1 or n-1 bytes and then returns Pending. Oracle: refimpl parses the complete byte log of every stream both endpoints wrote (stream types, SETTINGS first and only allowed control frames, complete frames whose length equals the bytes that follow, grease form of reserved ids, no HTTP/2 type or setting, HEADERS payloads decodable, DATA payload = the program's bytes). states = distinct transport fingerprints; non-trivial = executions with a partial write."
+        "programs: every client call sequence of length <= {cl} over {{send_data(empty), send_data(1 byte), send_data(two-chunk Buf), send_trailers, finish, stop_stream}} after send_request (against a fixed server program), and every server call sequence of length <= {sl} over {{send_response, the three send_data, send_trailers, finish, stop_stream, shutdown(0), shutdown(1)}} (against a fixed client program); each call awaited; x (grease on/off) x (extensions configured on/off); plus a values family: max_field_section_size and max_webtransport_sessions from {{0, 63, 64, 16383, 16384, 2^30-1, 2^30, 2^62-1}} and a server shutdown(n) for n in {{0, 15, 16, 4095, 4096, 2^28-1, 2^28}} (every varint form boundary in SETTINGS values and GOAWAY identifiers). Each program under the default transport, the uniform one-byte-per-write schedule, and (programs of length <= 3) every write-acceptance pattern with <= {bound} deviations, a deviation being one poll_ready/poll_send answer that accepts 0, 1, 2, header-boundary-1, header-boundary, header-boundary+1 or n-1 bytes and then returns Pending. Oracle: refimpl parses the complete byte log of every stream both endpoints wrote (stream types, SETTINGS first and only allowed control frames, complete frames whose length equals the bytes that follow, grease form of reserved ids, no HTTP/2 type or setting, GOAWAY identifiers never increasing, HEADERS payloads decodable, DATA payload = the program's bytes). states = distinct transport fingerprints; non-trivial = executions with a partial write."
     );
     rep.assumptions = vec!["cancelling a pending write future is outside the documented pattern (DESIGN.md 6)".into(), "the order of HEADERS/DATA on a request stream is the application's responsibility and not judged here".into()];
     rep.bound_note = format!("client programs <= {cl} calls, server programs <= {sl} calls, deviation bound {bound}");
